@@ -579,3 +579,145 @@ PROPS.update({
     "C15": dict(gen=gen_C15, configs=["dev", "rel"], judge=judge_projection(["cast", "get"]), both_placements=True,
                 assumptions=["user-defined types of the harness (dom_cast.rs) declare BASE_SIZE = offset of the tail and dst_len = (size - BASE_SIZE)/element size"]),
 })
+
+
+# ==========================================================================
+# boot-information full dump (domain `mbi`): C01, C04, C05, C17, C18, C19, C08
+# ==========================================================================
+import test_mbi_dump as TM  # noqa: E402  (structured region generator and hand-written regions)
+
+DOMAINS_READY.add("mbi")
+
+
+def valid_mem(region):
+    """the memory made valid for load: at least the 8-byte header and the declared total size"""
+    region = bytes(region)
+    if len(region) < 8:
+        region = region + bytes(8 - len(region))
+    total = int.from_bytes(region[:4], "little")
+    if total > len(region) and total < (1 << 22):
+        region = region + bytes(total - len(region))
+    return region
+
+
+def has_vbe_ub(lines):
+    return any(l.startswith("vbe_mi ") and l.endswith("memory_model=UB") for l in lines)
+
+
+def mbi_case(region):
+    return "mbi " + hx(valid_mem(region))
+
+
+def gen_mbi_regions(rng, n, dist):
+    g = TM.Gen(rng.getrandbits(32))
+    out = []
+    for _ in range(n):
+        r = valid_mem(g.region())
+        if int.from_bytes(r[:4], "little") > len(r):
+            continue
+        out.append(r)
+        count(dist, "random_regions")
+    return out
+
+
+def mutate_counts(rng, region):
+    """boundary mutation of one size/count/stride/index field of one tag on the walk"""
+    b = bytearray(region)
+    tags = []
+    off = 8
+    total = min(len(b), int.from_bytes(b[:4], "little"))
+    while off + 8 <= total:
+        typ = int.from_bytes(b[off:off + 4], "little")
+        size = int.from_bytes(b[off + 4:off + 8], "little")
+        if size < 8:
+            break
+        tags.append((off, typ, size))
+        off += (size + 7) // 8 * 8
+    cand = []
+    for (o, typ, size) in tags:
+        if typ == 17 and size >= 16:
+            cand += [(o + 8, 4, [0, 1, 8, 16, 24, 32, 39, 40, 41, 44, 48, 56, size - 16, size - 15, 0xFFFFFFFF]),
+                     (o + 12, 4, [0, 1, 2, 0xFFFFFFFF])]
+        if typ == 9 and size >= 20:
+            cand += [(o + 8, 4, [0, 1, 2, 3, 4, 5, (size - 20) // 40, (size - 20) // 40 + 1, (size - 20) // 64 + 1, 0x10000, 0xFFFF]),
+                     (o + 12, 4, [0, 1, 39, 40, 41, 63, 64, 65, 0x10000, 0x80000000]),
+                     (o + 16, 4, [0, 1, 2, 3, 4, 0xFFFF, 0xFFFFFFFF])]
+        if typ == 8 and size >= 34:
+            cand += [(o + 29, 1, [0, 1, 2, 3, 7, 255]), (o + 32, 2, [0, 1, 2, (size - 34) // 3, (size - 34) // 3 + 1, 255, 256, 0xFFFF])]
+        if typ == 15 and size >= 44:
+            cand += [(o + 28, 4, [0, 19, 20, 35, 36, 37, 40, 44, 4000, 0xFFFFFFFF])]
+        if typ == 6 and size >= 16:
+            cand += [(o + 8, 4, [0, 20, 23, 24, 25, 48])]
+        cand += [(o + 4, 4, [0, 7, 8, 9, size - 1, size + 1, size + 8, total - o, total - o + 1, total - o - 8, 0xFFFFFFFF])]
+    if not cand:
+        return None
+    (o, w, vals) = rng.choice(cand)
+    v = rng.choice(vals) & ((1 << (8 * w)) - 1)
+    b[o:o + w] = v.to_bytes(w, "little")
+    return bytes(b)
+
+
+def gen_C01(rng, tier):
+    dist = {}
+    cases = []
+    for r in TM.hand_cases():
+        r = valid_mem(r)
+        if int.from_bytes(r[:4], "little") <= len(r):
+            cases.append(mbi_case(r))
+            count(dist, "hand_written")
+    n = 4000 if tier == "thorough" else 350
+    regions = gen_mbi_regions(rng, n, dist)
+    for r in regions:
+        cases.append(mbi_case(r))
+        if rng.random() < 0.6:
+            m = mutate_counts(rng, r)
+            if m is not None:
+                cases.append(mbi_case(m))
+                count(dist, "boundary_mutations")
+        if rng.random() < 0.1 and len(r) > 24:
+            cut = rng.randrange(8, len(r)) & ~3
+            t = bytearray(r[:max(8, cut)])
+            t[0:4] = E.u32(len(t))
+            cases.append(mbi_case(bytes(t)))
+            count(dist, "truncations")
+        if rng.random() < 0.05:
+            u = bytearray(rng.getrandbits(8) for _ in range(rng.choice([16, 24, 40, 64, 128])))
+            u[0:4] = E.u32(len(u))
+            u[-8:] = E.end_tag()
+            cases.append(mbi_case(bytes(u)))
+            count(dist, "unstructured")
+    return cases, dict(
+        rule="mbi (full dump: load, generic walk, module iterator, all 20 typed getters, every accessor of every tag kind, "
+             "EFI/ELF iterators run to exhaustion with len() after each step): hand-written regions covering every kind and "
+             "malformation; seeded structured regions (all 22 kinds + custom, 0..10 tags, 15% wrong size fields); boundary "
+             "mutations of every internal count/stride/index field (EFI descriptor size/version, ELF count/entry size/shndx, "
+             "palette colour count, framebuffer type, RSDP length, memory-map entry size, tag sizes); truncations; unstructured "
+             "bytes. Region placed flush against a PROT_NONE guard page at its end and (second run) at its start. "
+             "distinct_nontrivial = distinct (domain, model transcript) pairs.",
+        dist=dist, exhaustive=False)
+
+
+def judge_mbi_full(case, ml, il):
+    """every line is compared; any difference is a failing input of the property"""
+    if ml == il:
+        return ("ok", "")
+    if any("CRASH" in l or "TIMEOUT" in l for l in il):
+        return ("violation", "the implementation crashed or did not terminate")
+    return default_judge(case, ml, il)
+
+
+def model_ub(case, ml):
+    """lines where the model itself predicts undefined behaviour (Fault) on an input inside the contract"""
+    return [l for l in ml if l.endswith(" UB") or " UB " in l or "=UB" in l]
+
+
+MATCHERS["F18-vbe-memory-model"] = lambda d: all(l.startswith("vbe_mi ") and l.endswith("memory_model=UB") for l in d.get("ub_lines", ["x"]))
+MATCHERS["F18-vbe-memory-model-c08"] = MATCHERS["F18-vbe-memory-model"]
+MATCHERS["F18-vbe-memory-model-c04"] = MATCHERS["F18-vbe-memory-model"]
+
+PROPS.update({
+    "C01": dict(gen=gen_C01, configs=["dev", "rel"], judge=judge_mbi_full, both_placements=True, check_model_ub=True,
+                assumptions=["the memory made valid for load is max(8, declared total size) bytes",
+                             "ELF section names (external addresses) are not dereferenced by the dump",
+                             "the harness does not read VBEModeInfo.memory_model when its byte is not a declared discriminant (known finding F18)"]),
+})
